@@ -2896,6 +2896,10 @@ class SemanticAnalyzer(
                     )
                 return None, False, True
             if isinstance(sym.node, PlaceholderNode):
+                if self.final_iteration:
+                    # A cyclic definition like "class A(metaclass=A)", the error is already
+                    # reported by the lookup above, and we must not defer anymore.
+                    return None, False, True
                 return None, True, False  # defer later in the caller
 
             # Support type aliases, like `_Meta: TypeAlias = type`
